@@ -7,8 +7,8 @@ impl BoxedUint {
     ///
     /// Assumes `self - rhs` as unbounded signed integer is in `[-p, p)`.
     pub fn sub_mod(&self, rhs: &Self, p: &Self) -> Self {
-        debug_assert_eq!(self.bits_precision(), p.bits_precision());
-        debug_assert_eq!(rhs.bits_precision(), p.bits_precision());
+        assert_eq!(self.bits_precision(), p.bits_precision());
+        assert_eq!(rhs.bits_precision(), p.bits_precision());
         debug_assert!(self < p);
         debug_assert!(rhs < p);
 
